@@ -411,6 +411,8 @@ func (r *Report) finish(out string, start time.Time, verbose bool) {
 			"discharged_by":            bySolver,
 			"solver_seconds":           round3(solverSecs),
 			"solver_runs":              tally.runs,
+			"cross_checked":            tally.cross,
+			"cross_check_agreed":       tally.crossAgree,
 			"samples":                  samples,
 			"known_findings":           knownHit,
 			"undischarged":             namesOf(failed),
